@@ -171,7 +171,9 @@ func memberNames(ms []string) string { return "[" + strings.Join(ms, " ") + "]" 
 // Check is the routing-table oracle on the stabilised state.
 func (s *c13Sys) Check() []clustermc.Fail {
 	var fs []clustermc.Fail
-	add := func(k, f string, a ...interface{}) { fs = append(fs, clustermc.Fail{Key: k, What: fmt.Sprintf(f, a...)}) }
+	add := func(k, f string, a ...interface{}) {
+		fs = append(fs, clustermc.Fail{Key: k, What: fmt.Sprintf(f, a...)})
+	}
 	live := s.liveByAge()
 	if len(live) == 0 {
 		return nil
